@@ -11,6 +11,12 @@ state transition of a library future):
                never leaves a worker loop, a library done-callback or cancel(): the setter is applied through a
                tolerant helper or under a done()-guard held with the future's lock
   R-HANDLER    the handlers that contain user faults catch Exception (not a narrower class)
+  R-PROBE      library code never probes a future it was handed with hasattr/getattr for a name outside the Future
+               API (on a failed proxy future the lookup raises the callable's exception outside every handler;
+               shared with C17)
+  R-RECORD-EQ  a container of job records is searched by equality (remove / index / count / in) only if the
+               record's first field is the job's own library future, or the element class has identity equality:
+               tuple comparison never reaches __eq__ of submitted callables / arguments
 Reasoned exceptions: the direct call in _Future.add_done_callback on an already-done future propagates to the
 caller of add_done_callback (the repository's own test_broken_callback documents this), and the count callable's
 first evaluation in ThrottleExecutor.__init__ propagates to whoever constructs the executor (no worker exists yet).
@@ -248,4 +254,6 @@ def record_eq_rule(ctx, rep, rule):
                 if not fts:
                     why = "its first field `%s` is not a library object (nothing the library constructs is ever stored there)" % f0
                 rep.ob(rule, "%s: %s on self.%s compares %s records by their future first" % (fi.qualname, what, cont.attr, rc.name), ok, "%s on a container of %s records compares them field by field, and %s: comparing two different jobs calls __eq__ of submitted callables / arguments -- user code that may raise out of cancel() or out of a worker thread" % (what, rc.name, why), where_of(fi, node))
-    rep.count("equality-based look-ups of job records", n, 1)
+    # zero is a legitimate count (a queue searched by identity only has nothing to show here); the seeded mutant
+    # C18-p in the self-test corpus is the positive example that keeps this rule from passing vacuously
+    rep.count("equality-based look-ups of job records", n, 0)
